@@ -234,10 +234,15 @@ class SimFS:
 
     def sys_truncate(self, path: str, size: int) -> None:
         self._sys("truncate", path, size, mutating=True)
-        f = self.files[path]
-        del f.data[size:]
+        f = self.files.get(self._resolve(path))
+        if f is None:
+            raise self.err(FileNotFoundError(errno.ENOENT, "No such file", path))
+        if size <= len(f.data):
+            del f.data[size:]
+        else:
+            f.data += b"\0" * (size - len(f.data))
         f.mtime = self.clock
-        self.mutated(path)
+        self.mutated(self._resolve(path))
 
     # -- open() -----------------------------------------------------------------------------------
     def open(self, path: str, mode: str = "r", *a: Any, **k: Any) -> "FakeFile":
@@ -480,6 +485,11 @@ class _FakeOS:
         _fs().unlink(p)
 
     remove = unlink
+
+    def truncate(self, p: Any, length: int) -> None:
+        if isinstance(p, int):
+            raise InternalError("SimFS: os.truncate on a descriptor is not modelled")
+        _fs().sys_truncate(p, length)
 
     def fsync(self, fd: int) -> None:
         _fs().fsync(fd)
